@@ -159,7 +159,11 @@ class BaseCollection:
             istart, iend = item.time_range
             if istart >= end or iend <= start:
                 continue
-            yield item, simple and (start <= istart or iend <= end)
+            # An open side of the enclosing range tells nothing (it is also
+            # the default for an item without any time range)
+            yield item, simple and (
+                radicale_filter.TIMESTAMP_MIN < istart and start <= istart or
+                iend < radicale_filter.TIMESTAMP_MAX and iend <= end)
 
     def has_uid(self, uid: str) -> bool:
         """Check if a UID exists in the collection."""
